@@ -8,6 +8,6 @@ trap 'git -C /repo checkout -- . ; git -C /repo clean -fdq; find /verif/replays 
 if ! (cd /repo && GOFLAGS=-mod=mod go build ./... 2>&1 | tail -5); then echo "BUILD FAILED"; fi
 if [ -z "$SKIP_BASELINE" ]; then /verif/bin/baseline.sh | head -3; fi
 for p in "$@"; do
-  out=$(cd /verif && python3 bin/check run "$p" 2>&1); rc=$?
+  out=$(cd /verif && VERIF_EVIDENCE_DIR=/verif/.work/evidence-scratch python3 bin/check run "$p" 2>&1); rc=$?
   echo "== $(basename $patch) $p exit=$rc"; echo "$out" | grep -E "ORACLE|VIOLATION|INCONCLUSIVE|quick:" | head -4 | cut -c1-400
 done
